@@ -25,8 +25,11 @@ def mayCompress (acceptEncoding : Option Str) (contentType : Str) : Bool :=
 /-- `Accept-Encoding` is listed in a Vary value -/
 def variesOnAE (v : Str) : Bool := isInfix vAE v
 
-/-- the outputs of the successive calls recorded in a history -/
-def outputs (gz : Gz) (h : GzHist) : List Bytes := (List.range h.length).map (fun i => gz (h.take (i + 1)))
+/-- the outputs of the successive calls recorded in a history (`pre` = the calls made before) -/
+def outputsFrom (gz : Gz) (pre : GzHist) : GzHist → List Bytes
+  | [] => []
+  | c :: cs => gz (pre ++ [c]) :: outputsFrom gz (pre ++ [c]) cs
+def outputs (gz : Gz) (h : GzHist) : List Bytes := outputsFrom gz [] h
 
 /-- flushes … then exactly one close, at the end -/
 def WellClosed (h : GzHist) : Prop := ∃ ini c, h = ini ++ [(c, true)] ∧ ∀ p ∈ ini, p.2 = false
